@@ -18,5 +18,12 @@ def run(ctx):
     r.not_decided = ["greedy/lazy choice inside re (T2)", "lower-case ambiguity letters in a pattern are not transcribed by the code; no rule is armed on that"]
     ctx.guard(transcription_rule, ctx, "C16.transcription")
     run_kernels(ctx, ["K2", "K1"], "C16")
+    # a group "asked for as a sequence" is a slice of the target: CircularRecord.__getitem__ hands out the library's slice
+    from ..rules_flow import getitem_rule
+    r.skip.update({"C16.group-slice.no-circular-claim", "C16.group-slice.deepcopy"})
+    ctx.guard(getitem_rule, ctx, "C16.group-slice")
+    # "any target searched as non-linear": the library's own caller hands linear=False for every circular declaration
+    from ..rules_misc import k19_match
+    ctx.guard(k19_match, ctx, "C16")
     from ..rules_misc import text_consumers_rule
     ctx.guard(text_consumers_rule, ctx, "C16.text-consumers")
